@@ -53,7 +53,7 @@ A_serial  == <<8, 9>>                                                        \* 
 A_page    == <<1, 5000>>
 A_pstate  == << <<1>>, <<0, 255>>, <<>> >>                                   \* ... and a zero-length one
 A_ts      == << <<0, 0, 0, 1>>, <<5, 44849, 32768, 1>>, <<0, 0, 0, 0>> >>    \* 1 ; 0x0005AF3180000001 (needs the high limb) ; 0
-A_ks      == << <<107, 115>>, <<75, 83, 50>>, <<>> >>                        \* "ks", "KS2", "" (a [string] may be empty)
+A_ks      == << <<107, 115>>, <<75, 83, 50>>, <<>> >>                        \* "ks", "KS2", "" (recorded only, see EmptyKeyspace)
 A_cont    == << [unit |-> "ROWS",  max_pages |-> 0, pps |-> 0, queue |-> 4],
                 [unit |-> "BYTES", max_pages |-> 3, pps |-> 7, queue |-> 2] >>
 A_payload == << << <<<<107>>, V(<<1, 2>>)>> >>,                              \* {"k": 0x0102}
@@ -157,6 +157,10 @@ BatchHasUnset(qs) == \E i \in 1..Len(qs) : HasUnset(qs[i].params)
 \* documents the refusal (CREDENTIALS after v1, backpressure before DSE_V2), or the session layer can ask for it
 \* at that version (serial consistency of a v2 BATCH: Session passes Statement.serial_consistency_level through).
 Why(cond, name, must) == IF cond THEN {<<name, must>>} ELSE {}
+\* An empty keyspace NAME is not a request the property speaks about: it is no legal CQL identifier, the session layer
+\* maps a falsy keyspace to "none", and the documents do not say what an empty <keyspace> would mean.  Such cases are
+\* enumerated (the edge variant) but their outcome is recorded, not judged, on every version.
+EmptyKeyspace(o) == Why(o.ks = Some(<<>>), "empty_keyspace", FALSE)
 Obstacles(k, pv, fo, o) ==
     Why(IsSome(fo.payload) /\ pv < 4, "custom_payload", TRUE)
   \cup
@@ -164,7 +168,8 @@ Obstacles(k, pv, fo, o) ==
             Why(IsSome(o.serial) /\ pv < 2, "serial_consistency", TRUE)
        \cup Why(IsSome(o.page) /\ pv < 2, "page_size", TRUE)
        \cup Why(IsSome(o.pstate) /\ pv < 2, "paging_state", The(o.pstate) # <<>>)   \* a zero-length state asks for nothing
-       \cup Why(IsSome(o.ks) /\ ~HasKeyspace(pv), "keyspace", TRUE)
+       \cup Why(IsSome(o.ks) /\ ~HasKeyspace(pv), "keyspace", The(o.ks) # <<>>)
+       \cup EmptyKeyspace(o)
        \cup Why(IsSome(o.cont) /\ ~HasContPaging(pv), "continuous_paging", TRUE)
        \cup Why(IsSome(o.ts) /\ pv < 3, "timestamp", FALSE)              \* Session: only when pv >= 3
        \cup Why(o.skip /\ pv < 2, "skip_metadata", FALSE)                \* v1 PREPARED has no result metadata
@@ -172,10 +177,11 @@ Obstacles(k, pv, fo, o) ==
        [] k = "BATCH" ->
             Why(pv < 2, "batch_message", FALSE)                          \* Session refuses BatchStatement on v1
        \cup Why(IsSome(o.serial) /\ pv < 3, "serial_consistency", pv = 2)
-       \cup Why(IsSome(o.ks) /\ ~HasKeyspace(pv), "keyspace", TRUE)
+       \cup Why(IsSome(o.ks) /\ ~HasKeyspace(pv), "keyspace", The(o.ks) # <<>>)
+       \cup EmptyKeyspace(o)
        \cup Why(IsSome(o.ts) /\ pv < 3, "timestamp", FALSE)
        \cup Why(BatchHasUnset(o.queries) /\ pv < 4, "unset_value", FALSE)
-       [] k = "PREPARE" -> Why(IsSome(o.ks) /\ ~HasKeyspace(pv), "keyspace", TRUE)
+       [] k = "PREPARE" -> Why(IsSome(o.ks) /\ ~HasKeyspace(pv), "keyspace", The(o.ks) # <<>>) \cup EmptyKeyspace(o)
        [] k = "CREDENTIALS" -> Why(pv > 1, "credentials_message", TRUE)  \* removed in v2 (SASL)
        [] k = "AUTH_RESPONSE" -> Why(pv < 2, "auth_response_message", FALSE)
        [] k = "REVISE_REQUEST" ->
